@@ -42,13 +42,22 @@ def uuid_text(ver, draw, upper_ok=True):
 YEAR = st.one_of(st.integers(1970, 2030), st.integers(1970, 2030), st.integers(1000, 9998), st.integers(1, 999))
 
 
+# microsecond values v for which int(float("0.vvvvvv") * 10**6) != v: any implementation that takes the fraction through binary
+# floating point writes them one microsecond early (about 1.15 % of all values; a sample with 4-, 5- and 6-digit spellings)
+FLOAT_HOSTILE_US = [1992, 7831, 16220, 31900, 62800, 125960, 128625, 128820, 129066, 129567, 129960, 250557, 250594, 251700, 251756, 252200, 252924, 252970,
+                    253082, 253250, 253532, 253887, 254337, 255360, 257300, 258860, 259997, 261630, 261858, 261910, 500500, 502690, 503400, 508500, 509767,
+                    510500, 511450, 512230, 512600, 513110, 514600, 514990, 516500, 516986, 517500, 520500, 520820, 522975, 523017, 523612, 249, 251, 489, 1001,
+                    15700, 3970, 125100, 250200, 125014]
+
+
 @st.composite
 def instant(draw, min_year=1):
     y = max(min_year, draw(YEAR))
     mo = draw(st.integers(1, 12))
     d = draw(st.integers(1, tsref.days_in_month(y, mo)))
     secs = draw(st.one_of(st.just(0), st.integers(0, 86399)))
-    us = draw(st.one_of(st.just(0), st.integers(0, 999999), st.integers(0, 999).map(lambda k: k * 1000), st.sampled_from([100000, 120000, 999999, 1, 500, 999000])))
+    us = draw(st.one_of(st.just(0), st.integers(0, 999999), st.integers(0, 999).map(lambda k: k * 1000), st.sampled_from([100000, 120000, 999999, 1, 500, 999000]),
+                       st.sampled_from(FLOAT_HOSTILE_US)))
     return tsref.instant(y, mo, d) + secs * 10 ** 6 + us
 
 
